@@ -48,9 +48,24 @@ def gen_facts(tier):
                     F.append(factmod.Fact("alias/%d/%s/%s/%s" % (D, r, o, n),
                                           "std::is_same_v<%s, overflow_integer<elastic_integer<%d, rounding_integer<wide_integer<digits_v<%s>, %s>, %s>>, %s>>" % (T, D, n, n, RT[r], OT[o]), 1, may_reject=D > 64))
                     F.append(factmod.Fact("alias-number/%d/%s/%s/%s" % (D, r, o, n), "std::is_same_v<%s, scaled_integer<%s, power<-3>>>" % (sn(D, -3, r, o, n), T), 1, may_reject=D > 64))
+    # storage: the innermost representation must have room for the declared digits plus the sign bit, in particular when the
+    # digits need multi-word storage and are an exact multiple of the limb size (seeded change M-C11-1)
+    sdigs = [31, 32, 63, 64, 96, 127, 128, 129, 160, 192, 200, 256] if tier == "quick" else list(range(120, 136)) + [31, 32, 63, 64, 96, 160, 192, 200, 224, 256, 320, 512, 1000]
+    for D in sdigs:
+        for n in ("int", "unsigned", "std::int8_t", "std::int64_t"):
+            sg = 0 if n == "unsigned" else 1
+            for T, nm in ((si(D, "nearest", "sat", n), "static_integer"), ("wide_integer<%d, %s>" % (D, n), "wide_integer"), ("elastic_integer<%d, wide_integer<31, %s>>" % (D, n), "elastic-over-wide")):
+                if nm == "elastic-over-wide" and n != "int":
+                    continue
+                F.append(factmod.Fact("storage/%s/%d/%s/bits" % (nm, D, n), "(long long)sizeof(decltype(unwrap(std::declval<%s>()))) * CHAR_BIT" % T, None, may_reject=True,
+                                      judge=lambda v, D=D, sg=sg: None if v >= D + sg else "the innermost representation has %d bits; %d digits%s need %d" % (v, D, " plus a sign bit" if sg else "", D + sg),
+                                      meta=dict(anchor="include/cnl/_impl/wide-integer.h make_uintwide; wide_tag/definition.h")))
+                F.append(factmod.Fact("storage/%s/%d/%s/max-positive" % (nm, D, n), "(std::numeric_limits<%s>::max() > %s{0})" % (T, T), 1, may_reject=True))
+                if sg:
+                    F.append(factmod.Fact("storage/%s/%d/%s/lowest-negative" % (nm, D, n), "(std::numeric_limits<%s>::lowest() < %s{0})" % (T, T), 1, may_reject=True))
     pairs = [(a, b) for a in digs for b in digs if a <= 64 and b <= 64]
     if tier == "quick":
-        pairs = [(7, 7), (15, 15), (15, 7), (31, 31), (31, 32), (32, 63), (8, 1), (1, 64), (63, 63), (16, 17)]
+        pairs = [(7, 7), (15, 15), (15, 7), (31, 31), (31, 32), (32, 63), (8, 1), (1, 64), (63, 63), (16, 17), (64, 64), (63, 64)]
     k = 0
     for (L, R) in pairs:
         for r in ("nearest", "tie"):
